@@ -903,3 +903,170 @@ func TestBoundedC04(t *testing.T) {
 		}()
 	}
 }
+
+// ---- C03 / C01: random records of the Rec shape (bounded)
+
+func randomRecs(n int, seed int64) []Rec {
+	rng := rand.New(rand.NewSource(seed))
+	out := make([]Rec, n)
+	for i := range out {
+		fcheck.RandomRecord(&out[i], rng)
+	}
+	return out
+}
+
+func diffColumns(got, want map[string][]fcheck.Entry) string {
+	for k, w := range want {
+		g := got[k]
+		if len(g) != len(w) {
+			return fmt.Sprintf("column %s: %d entries in the file, canonical striping has %d", k, len(g), len(w))
+		}
+		for i := range w {
+			if g[i].Rep != w[i].Rep || g[i].Def != w[i].Def || !bytes.Equal(g[i].Val, w[i].Val) {
+				return fmt.Sprintf("column %s entry %d: file has (r=%d d=%d v=%x), canonical striping (r=%d d=%d v=%x)", k, i, g[i].Rep, g[i].Def, g[i].Val, w[i].Rep, w[i].Def, w[i].Val)
+			}
+		}
+	}
+	if len(got) != len(want) {
+		return fmt.Sprintf("%d columns in the file, %d in the schema", len(got), len(want))
+	}
+	return ""
+}
+
+func TestBoundedC03(t *testing.T) {
+	for round := 0; round < 24; round++ {
+		n := []int{1, 2, 3, 7, 20, 60}[round%6]
+		rs := randomRecs(n, int64(300+round))
+		cname := []string{"uncompressed", "snappy", "gzip"}[round%3]
+		ps := []int{1, 2, 5, 1000}[round%4]
+		func() {
+			defer func() {
+				if r := recover(); r != nil {
+					t.Errorf("REPLAY-FAIL C03 shape=Rec seed=%d records=%d: panic: %v", 300+round, n, r)
+				}
+			}()
+			file := writeFile(t, rs, ps, []int{n/2 + 1, n}, codecs[cname])
+			got, err := fcheck.ColumnsOf(file, recLeaves)
+			if err != nil {
+				t.Errorf("REPLAY-FAIL C03 shape=Rec seed=%d records=%d: columns not decodable: %v", 300+round, n, err)
+				return
+			}
+			want := map[string][]fcheck.Entry{}
+			for _, r := range rs {
+				fcheck.Stripe(r, want)
+			}
+			if d := diffColumns(got, want); d != "" {
+				t.Errorf("REPLAY-FAIL C03 shape=Rec seed=%d records=%d page=%d: %s", 300+round, n, ps, d)
+			}
+		}()
+	}
+}
+
+func sameRec(a, b Rec) bool {
+	// floats bit for bit, nil and empty slices alike
+	ca, cb := map[string][]fcheck.Entry{}, map[string][]fcheck.Entry{}
+	fcheck.Stripe(a, ca)
+	fcheck.Stripe(b, cb)
+	return diffColumns(ca, cb) == ""
+}
+
+func TestBoundedC01(t *testing.T) {
+	for round := 0; round < 36; round++ {
+		n := []int{0, 1, 2, 5, 9, 33, 120}[round%7]
+		rs := randomRecs(n, int64(100+round))
+		cname := []string{"uncompressed", "snappy", "gzip"}[round%3]
+		ps := []int{1, 2, 3, 7, 1000}[round%5]
+		var batches []int
+		switch round % 4 {
+		case 0:
+			batches = []int{n}
+		case 1:
+			batches = []int{n / 2, n - n/2}
+		case 2:
+			for i := 0; i < n; i++ {
+				batches = append(batches, 1)
+			}
+		default:
+			batches = []int{1, n / 3, n}
+		}
+		fail := func(f string, a ...interface{}) {
+			t.Errorf("REPLAY-FAIL C01 shape=Rec seed=%d records=%d page=%d codec=%s batches=%v: %s", 100+round, n, ps, cname, batches, fmt.Sprintf(f, a...))
+		}
+		func() {
+			defer func() {
+				if r := recover(); r != nil {
+					fail("panic: %v", r)
+				}
+			}()
+			var buf bytes.Buffer
+			w, err := NewParquetWriter(&buf, MaxPageSize(ps), codecs[cname])
+			if err != nil {
+				t.Fatal(err)
+			}
+			i := 0
+			for _, b := range batches {
+				k := 0
+				for ; k < b && i < n; k++ {
+					x := rs[i]
+					// copies of the slices the caller keeps: mutated after Add
+					x.Tags = append([]string{}, rs[i].Tags...)
+					x.Items = append([]Inner{}, rs[i].Items...)
+					if rs[i].Name != nil {
+						s := *rs[i].Name
+						x.Name = &s
+					}
+					w.Add(x)
+					for j := range x.Tags {
+						x.Tags[j] = "mutated after Add"
+					}
+					for j := range x.Items {
+						x.Items[j].Code = "mutated after Add"
+						x.Items[j].Score = nil
+					}
+					if x.Name != nil {
+						*x.Name = "mutated after Add"
+					}
+					i++
+				}
+				if k > 0 {
+					if err := w.Write(); err != nil {
+						t.Fatal(err)
+					}
+				}
+			}
+			if err := w.Close(); err != nil {
+				t.Fatal(err)
+			}
+			written := rs[:i]
+			pr, err := NewParquetReader(bytes.NewReader(buf.Bytes()))
+			if err != nil {
+				fail("NewParquetReader: %v", err)
+				return
+			}
+			if pr.Rows() != int64(len(written)) {
+				fail("Rows()=%d, %d records written", pr.Rows(), len(written))
+			}
+			var got []*Rec
+			for pr.Next() {
+				x := new(Rec)
+				pr.Scan(x)
+				got = append(got, x)
+			}
+			if pr.Error() != nil {
+				fail("Error()=%v", pr.Error())
+				return
+			}
+			if len(got) != len(written) {
+				fail("Next() true %d times, %d records written", len(got), len(written))
+				return
+			}
+			// compared only after every record was scanned: earlier results must not change
+			for k := range got {
+				if !sameRec(*got[k], written[k]) {
+					fail("record %d differs after the round trip", k)
+					return
+				}
+			}
+		}()
+	}
+}
